@@ -103,6 +103,23 @@ package datastore
 //@            callarg(loadIntendedStoreHighestPrio, 0, 4) == callres(GetIntentNames, 0) && callarg(GetIntentNames, 0, 0) == transaction
 // a run that is neither a dry run nor rejected goes to the device and on to the stores, whatever it changes there: an
 // intent that is shadowed completely still has to be recorded
+// the function refuses nothing on its own account: when it returns an error, a step it ran has failed. A request
+// that meets no fault is not refused, so it can be repeated after the fault is gone (deletes included: giving up an
+// intent that is not stored any more is not an error)
+//@   internal a_refusal_comes_from_a_step_that_failed [C07]: r1 != nil ==>
+//@            (called(NewTreeRoot) && callres(NewTreeRoot, 0, 1) != nil) ||
+//@            (called(LoadIntendedStoreOwnerData) && callres(LoadIntendedStoreOwnerData, 0, 1) != nil) ||
+//@            (called(AddIntentContent) && callres(AddIntentContent, 0, 0) != nil) ||
+//@            (called(AddCacheUpdatesRecursive) && callres(AddCacheUpdatesRecursive, 0, 0) != nil) ||
+//@            (called(loadIntendedStoreHighestPrio) && callres(loadIntendedStoreHighestPrio, 0, 0) != nil) ||
+//@            (called(populateTreeWithRunning) && callres(populateTreeWithRunning, 0, 0) != nil) ||
+//@            (called(GetDeletes) && callres(GetDeletes, 0, 1) != nil) ||
+//@            (called(cacheUpdateToSdcpbUpdate) && callres(cacheUpdateToSdcpbUpdate, 0, 1) != nil) ||
+//@            (called(SdcpbPath) && callres(SdcpbPath, 0, 1) != nil) ||
+//@            (called(applyIntent) && callres(applyIntent, 0, 1) != nil) ||
+//@            (called(Modify, 0) && callres(Modify, 0, 0) != nil) || (called(Modify, 1) && callres(Modify, 1, 0) != nil) ||
+//@            (called(Modify, 2) && callres(Modify, 2, 0) != nil) ||
+//@            (called(StartRollbackTimer) && callres(StartRollbackTimer, 0, 0) != nil)
 //@   internal accepted_run_is_applied [C02 C07]: r1 == nil && !dryRun && called(Validate) && !anyErrors(validationResult) ==> ntrace() > n0
 // all of running goes into the same tree: a leaf the device holds keeps its container from being deleted as a whole
 //@   internal running_is_loaded_in_full [C01 C09]: called(Validate) ==> called(populateTreeWithRunning) &&
